@@ -291,8 +291,8 @@ class C13(Check):
                 if moved.parent is not None or len(sessions) > 1:
                     moved.feeds_since_fork += 1
             elif opname in ('step', 'iter', 'exhaust', 'resume'):
-                if s.imm:
-                    continue
+                if s.imm and opname != 'resume':
+                    continue            # (resume_parse() is inherited by ImmutableInteractiveParser and is legal on it: it ends that session)
                 op = (opname, 1 + arg % 4) if opname == 'iter' else (opname,)
                 res, _ = self._apply(ip, op)
                 s.events.append((op, res))
